@@ -35,7 +35,7 @@ def correspondence(ctx):
     n_resets = 10 if th else 4
     casedir = CK.fresh_casedir(ctx)
     paths, metas = [], []
-    stats = {"resets": 0, "steps": 0, "agents": 0}
+    stats = {"resets": 0, "steps": 0, "agents": 0, "equivariance_checked": 0, "equivariance_not_applicable": 0}
     samples = []
     for name, objs, seed in specs:
         I = WL.Interner()
@@ -94,6 +94,22 @@ def correspondence(ctx):
                     T = WL.impl_tables(g)
                     v = WL.impl_view(views[ag])
                     a = WR.gen_action(rng, T, v)
+                    # equivariance (Proofs/Equivariance.v): once the world has been re-labelled, the hypotheses of the theorem are
+                    # evaluated inside Coq for the mapping current -> original addresses, whenever the action and the view only
+                    # mention objects of the (re-labelled) scenario
+                    if ep > 0:
+                        wips = set(T["ip2host"]) | {i for ips in T["nets"].values() for i in ips}
+                        a_ips = {a[k] for k in ("src", "tgt", "blocked") if k in a}
+                        v_ips = set(v["ctrl"]) | set(v["hosts"]) | set(v["svcs"]) | set(v["data"]) | set(v["blocks"]) | {x for xs in v["blocks"].values() for x in xs}
+                        if a_ips <= wips and v_ips <= wips and (a["type"] != "ScanNetwork" or tuple(a["net"]) in T["nets"]):
+                            inv_ip = {n: o for o, n in cum_ip.items()}
+                            inv_net = {n: o for o, n in cum_net.items()}
+                            minv = ("(mk_mapping [%s] [%s])" % ("; ".join(f"({x}%N, {y}%N)" for x, y in sorted(inv_ip.items())),
+                                                                "; ".join(f"(({x[0]}%N, {x[1]}%N), ({y[0]}%N, {y[1]}%N))" for x, y in sorted(inv_net.items()))))
+                            ops.append((f"OEquiv {ag} {minv} {WL.action_term(a, I)}", "equivariance hypotheses for " + json.dumps(WC.describe(a, WL))))
+                            stats["equivariance_checked"] += 1
+                        else:
+                            stats["equivariance_not_applicable"] += 1
                     new_gs = WL.run_coro(g.step(("10.4.0.%d" % ag, 1), views[ag], WL.to_action(a)))
                     v2 = WL.impl_view(new_gs)
                     T2 = WL.impl_tables(g)
